@@ -49,6 +49,10 @@ struct shim_map {
 
 #define MAX_STATIC 64
 static struct shim_map *static_maps[MAX_STATIC];
+// Simulated CPUs: every PERCPU_ARRAY map has one copy of its slots per CPU; SET_CPU (op 14)
+// selects the CPU the following programs (and MAP_* commands) run on. CPU 0 after RESET.
+#define SIM_NCPU 4
+static __u32 cur_cpu;
 static int nstatic;
 static struct shim_map *last_hit;
 
@@ -70,8 +74,10 @@ static struct shim_map *shim_new(const char *name, int type, __u32 ks, __u32 vs,
 	m->max_entries = max;
 	m->name = name;
 	switch (type) {
-	case BPF_MAP_TYPE_ARRAY:
 	case BPF_MAP_TYPE_PERCPU_ARRAY:
+		m->slots = calloc((size_t)(max ? max : 1) * SIM_NCPU, sizeof(void *));
+		break;
+	case BPF_MAP_TYPE_ARRAY:
 	case BPF_MAP_TYPE_ARRAY_OF_MAPS:
 		m->slots = calloc(max ? max : 1, sizeof(void *));
 		break;
@@ -196,6 +202,8 @@ static void *array_slot(struct shim_map *m, __u32 idx, int create)
 {
 	if (idx >= m->max_entries)
 		return NULL;
+	if (m->type == BPF_MAP_TYPE_PERCPU_ARRAY)
+		idx += cur_cpu * m->max_entries;
 	if (!m->slots[idx] && create && m->type != BPF_MAP_TYPE_ARRAY_OF_MAPS)
 		m->slots[idx] = calloc(1, m->value_size ? m->value_size : 1);
 	return m->slots[idx];
@@ -727,8 +735,13 @@ static void reset_all(void)
 		case BPF_MAP_TYPE_HASH:
 			hash_clear(m);
 			break;
-		case BPF_MAP_TYPE_ARRAY:
 		case BPF_MAP_TYPE_PERCPU_ARRAY:
+			for (__u32 j = 0; j < m->max_entries * SIM_NCPU; j++) {
+				free(m->slots[j]);
+				m->slots[j] = NULL;
+			}
+			break;
+		case BPF_MAP_TYPE_ARRAY:
 			for (__u32 j = 0; j < m->max_entries; j++) {
 				free(m->slots[j]);
 				m->slots[j] = NULL;
@@ -750,6 +763,7 @@ static void reset_all(void)
 		}
 	}
 	virt_now = 0;
+	cur_cpu = 0;
 	__u8 z[sizeof(PARAM)] = { 0 };
 
 	write_param(z, sizeof(z));
@@ -904,7 +918,17 @@ int main(void)
 			struct shim_map *un = shim_by_name("unused_lpm_type", 15);
 			long rc = 0;
 
-			if (!arr || !un || slot >= arr->max_entries) {
+			if (n == 0xffffffffu) { // LPM_DEL: the slot holds no inner map any more (core.Close deleted it)
+				if (arr && slot < arr->max_entries && arr->slots[slot]) {
+					struct shim_map *in = arr->slots[slot];
+
+					free(in->lpm);
+					free(in);
+					arr->slots[slot] = NULL;
+				} else {
+					rc = -ENOENT;
+				}
+			} else if (!arr || !un || slot >= arr->max_entries) {
 				rc = -E2BIG;
 				for (__u32 i = 0; i < n; i++) {
 					r32(&r);
@@ -1082,6 +1106,11 @@ int main(void)
 			}
 			break;
 		}
+		case 14: // SET_CPU cpu: later programs see that CPU's copy of every per-CPU array
+			cur_cpu = r32(&r) % SIM_NCPU;
+			w8(14);
+			w32(cur_cpu);
+			break;
 		default:
 			die("unknown opcode");
 		}
